@@ -12,3 +12,9 @@ package util
 //@ spec (FieldIDMap).Size
 //@   props C14
 //@   ensures r0 == len(fd.m)
+
+// FieldNameMap.Get dispatches to the trie or to the hash map built by Build. The hash map's own Get is verified
+// (internal/caching), the trie is not; the map a descriptor holds is whatever Build produced, which is not under
+// contract — so for callers the name look-up as a whole is TRUSTED: read-only, total, result unconstrained.
+//@ spec (FieldNameMap).Get
+//@   trusted
